@@ -573,6 +573,13 @@ def r129(ctx, fx):
             init_mentions_line = any(y.get("k") == "path" and lib.hpath(y) == "line" for y in lib.hwalk(n["init"]))
             if init_mentions_line and any(w in d for w in ("split_at", "split_off", "'index'", "get(", "split_once", "rsplit")):
                 parts |= {q["name"] for q in lib.hwalk(n["pat"]) if q.get("k") == "bind"}
+    # locals that hold the answer of a blankness test
+    blank = set()
+    for n in lib.hwalk(body):
+        if n.get("k") == "let" and "init" in n:
+            d = repr(lib.hdesc(n["init"]))
+            if "trim" in d and "is_empty" in d:
+                blank |= {q["name"] for q in lib.hwalk(n["pat"]) if q.get("k") == "bind"}
     n_sites = 0
     for x, anc in _anc_walk(body):
         if not (x.get("k") == "assign" and lib.hpath(x["l"]) == "line"):
@@ -588,6 +595,8 @@ def r129(ctx, fx):
             if p_.get("k") == "if" and k_ == "then":
                 d = repr(lib.hdesc(p_["cond"]))
                 if "trim" in d and "is_empty" in d:
+                    guarded = True
+                if any(y.get("k") == "path" and lib.hpath(y) in blank for y in lib.hwalk(p_["cond"])):
                     guarded = True
         key = "join_chunks|line-from-part#%d" % n_sites
         ctx.inst(rid, key, sample={"line": x.get("ln"), "parts_of_line": sorted(parts), "guarded_by_blankness_of_the_rest": guarded})
